@@ -183,7 +183,7 @@ func IsAppOp(op string) bool {
 		name = op[:i]
 	}
 	switch name {
-	case "W1", "W3", "WN", "U", "D", "DDL", "UV", "VAC", "IVAC", "TXB", "TXC", "TXR", "RDB", "RDE", "CK", "CC", "CO":
+	case "W1", "W3", "WN", "U", "D", "DL", "DDL", "UV", "VAC", "IVAC", "TXB", "TXC", "TXR", "RDB", "RDE", "CK", "CC", "CO":
 		return true
 	}
 	return false
